@@ -13,7 +13,7 @@ theorem escape_head (s : Str) : (escape s).head? ≠ some '"' := by
   | cons c r =>
     by_cases h : c = '"'
     · simp [escape, h]
-    · simpa [escape, h] using h
+    · simp [escape, h]
 
 theorem unescape_escape (s : Str) : unescape (escape s) = s := by
   induction s with
@@ -29,7 +29,7 @@ theorem unescape_escape (s : Str) : unescape (escape s) = s := by
           cases r with
           | nil => rfl
           | cons d r' => by_cases hd : d = '"' <;> simp [escape, hd] at he
-        simp [escape, h, he, unescape, this]
+        simp [escape, h, unescape, this]
       | cons d r' =>
         have hd : d ≠ '"' := by simpa [he] using hh
         rw [he] at ih
